@@ -209,7 +209,7 @@ PROPS = {
                           '(JSON object keys). str() equality is a consequence of field-wise equality because __str__ reads only those fields (and formats them with %-operators) — not a separate '
                           'obligation. Without NaN replacement a NaN objective travels as the non-strict literal NaN.',
             'not_decided': ['str(original) == str(reloaded) as its own obligation (it follows from field-wise equality; totality of str() IS an obligation, bundle strtot)', 'pandas / json axioms (assumed)']},
-    'C10': {'bundles': ['ledger', 'radii'], 'level': 'proof',
+    'C10': {'bundles': ['ledger', 'radii', 'model'], 'level': 'proof',
             'level_text': 'One obligation per exit site: MAXFUN flag implies nf == maxfun, the max-restarts message implies that many runs, '
                           'nruns == restarts + 1 via a ghost restart counter checked at every break/continue/return of solve_main and solve.',
             'level_note': LEDGER_NOTE + ' (b) "rho has reached rhoend" => rho == rescaled rhoend is proved in domain Rd (real scalars) at both message sites. (a) "sufficiently small" is a '
